@@ -252,7 +252,7 @@ func fakeMode(tier string, seed int64, shard, nshard int, r *res.Result) {
 	rng := rand.New(rand.NewSource(seed*71 + int64(shard)))
 	n := 25000
 	if tier == "thorough" {
-		n = 100000
+		n = 1200000
 	}
 	for i := 0; i < n/nshard; i++ {
 		s := newSim()
